@@ -1692,6 +1692,13 @@ def install_models(I):
     S.append(("Vec@Default::default", lambda I, a, f: Agg([], "vec")))
     S.append(("Option@Default::default", lambda I, a, f: none()))
 
+    def str_chars(I, a, f):
+        o = Opaque("chars")
+        o.s = deref(a[0])
+        return o
+    M["core::str::str::chars"] = str_chars
+    M["core::str::<impl str>::chars"] = str_chars
+
     # ---- BTreeMap with concrete keys: items = [[key, value], ...] kept sorted ------------------------------------------------
     def map_key(k):
         k = deref(k)
@@ -1947,7 +1954,12 @@ def install_models(I):
     M["core::iter::traits::iterator::Iterator::filter_map"] = lambda I, a, f: FilterIt(as_iter(I, a[0]), a[1], I, True)
 
     def it_count(I, a, f):
-        return len(drain(as_iter(I, a[0])))
+        x = a[0]
+        if isinstance(x, Opaque) and x.name == "chars":
+            # number of characters of a string with symbolic bytes: at most its byte length, equal only for ASCII
+            nbytes = len(x.s.b) if isinstance(x.s, StrVal) else 2 ** 32
+            return Term("chars_count", nbytes, repr(x.s))
+        return len(drain(as_iter(I, x)))
     M["core::iter::traits::iterator::Iterator::count"] = it_count
 
     def it_last(I, a, f):
@@ -2236,9 +2248,13 @@ def int_range(t, depth=0):
         return (lo, hi) if hi < 2 ** 16 else (0, 2 ** 16 - 1)
     if t.op == "&" and len(a) == 2:
         return (0, min(int_range(x, depth + 1)[1] for x in a))
+    if t.op == "chars_count" and a and isinstance(a[0], int):
+        return (0, a[0])
     if t.op == ">>" and len(a) == 2 and isinstance(a[1], int) and not isinstance(a[1], bool):
         lo, hi = int_range(a[0], depth + 1)
         return (lo >> a[1], hi >> a[1])
+    if t.op in ("eq", "ne", "==", "!=", "<", "<=", ">", ">=", "not"):
+        return (0, 1)
     return top
 
 
@@ -2320,6 +2336,11 @@ def path_feasible(guards):
                 if eq.get(k2) == b.const_value():
                     return False
                 ne[(k2, b.const_value())] = True
+                # a value known to be binary (a borrow / carry / comparison bit) cannot differ from both 0 and 1
+                if (k2, 0) in ne and (k2, 1) in ne:
+                    vs = sorted(a.vars())
+                    if len(vs) == 1 and a == Poly.var(vs[0]) and vs[0] in FELT_REGISTRY and int_range(Term("as_int", a))[1] <= 1:
+                        return False
             continue
         key = repr(cond)
         if isinstance(val, tuple):
